@@ -757,6 +757,7 @@ pub fn alphabet(r: &mut Sm, p: &Problem, n_random: usize) -> Vec<Vec<f64>> {
     // duplicates on purpose
     let d = al[r.below(al.len())].clone();
     al.push(d);
-    al.retain(|v| ref_bounds_violation(spec, v, 0.0, 1e-9).is_none());
+    // samplers only ever return canonical in-bounds states: keep the alphabet realistic
+    al.retain(|v| ref_bounds_violation(spec, v, 0.0, 1e-9).is_none() && crate::refm::canonical_violation(spec, v, 1e-9).is_none());
     al
 }
